@@ -364,6 +364,23 @@ pub fn can_dynarec(addr: usize) -> bool {
   addr < 0x8000
 }
 
+/// True if the instruction at `addr` in ROM extends past the end of the 16 KiB
+/// region it starts in. Its trailing bytes are then mapped independently of
+/// the region the instruction starts in (a different bank, or no ROM at all),
+/// so it is never made part of a longer block and never translated.
+pub fn straddles_rom_region(addr: usize, mem_ptr: *const MemoryAreas) -> bool {
+  if addr >= 0x8000 || (addr & 0x3fff) < 0x3ffe {
+    return false;
+  }
+  let remaining = 0x4000 - (addr & 0x3fff);
+  let mut bytes = [0u8; 3];
+  for i in 0..3 {
+    bytes[i] = memory_read_byte(mem_ptr, (addr + i) as u16);
+  }
+  let (_, length, _) = crate::decoder::decode(&bytes);
+  length > remaining
+}
+
 
 
 /// Verification hooks (compiled only with `--cfg gb_dynarec_verif`): an
